@@ -182,6 +182,10 @@ type yangMetaStack struct {
 }
 
 func (s *yangMetaStack) push(def interface{}) interface{} {
+	if s.count == len(s.defs) {
+		// deeper nesting than the initial capacity: grow instead of indexing past the end
+		s.defs = append(s.defs, make([]interface{}, len(s.defs))...)
+	}
 	s.defs[s.count] = def
 	s.count++
 	return def
